@@ -41,3 +41,41 @@ func VerifC01_CleanTrace() {
 	sym.Assert((count(ga, q) > 0) == wantAllow, "allow list must keep exactly the allowed names that are not traced")
 	sym.Assert(count(ga, q) <= 1 && count(gt, q) <= 1, "cleaned lists must not contain duplicates (the assembler rejects them)")
 }
+
+// VerifC01_GetConf: the lists runprog hands to the filter builder are disjoint with trace
+// precedence for every program type and with/without -allow-proc (symbolic flag): anything
+// that the configuration wants traced is in the trace list and not in the allow list.
+func VerifC01_GetConf() {
+	types := []string{""}
+	for k := range runptraceConfig {
+		types = append(types, k)
+	}
+	// deterministic order is not required: every type is explored
+	pType := types[sym.Choose("ptype", len(types))]
+	allowProc := sym.Bool("allow_proc")
+	_, allow, trace, _ := GetConf(pType, "/w", []string{"/w/a.out"}, nil, nil, allowProc)
+	wantTrace := append(append([]string{}, defaultSyscallTraces...), archSyscallTraces...)
+	if c, ok := runptraceConfig[pType]; ok {
+		wantTrace = append(wantTrace, c.Syscall.ExtraBan...)
+	}
+	inList := func(l []string, s string) bool {
+		for _, x := range l {
+			if x == s {
+				return true
+			}
+		}
+		return false
+	}
+	if allowProc {
+		sym.Reach("allow-proc")
+	}
+	for _, s := range wantTrace {
+		sym.Assert(inList(trace, s), "a syscall configured as traced is missing from the trace list")
+		sym.Assert(!inList(allow, s), "a traced syscall is also allow-listed (allow would win in the filter): "+s)
+	}
+	seen := map[string]bool{}
+	for _, s := range allow {
+		sym.Assert(!seen[s], "duplicate name in the allow list (the assembler rejects it)")
+		seen[s] = true
+	}
+}
